@@ -50,3 +50,21 @@ Definition sm9_hash1_impl (id : list N) (hid : N) : Z := from_hash_impl (ha_of 1
 Definition sm9_hash1_spec (id : list N) (hid : N) : Z := from_hash_spec (ha_of 1%N (id ++ [hid])).
 Definition sm9_hash2_impl (m w : list N) : Z := from_hash_impl (ha_of 2%N (m ++ w)).
 Definition sm9_hash2_spec (m w : list N) : Z := from_hash_spec (ha_of 2%N (m ++ w)).
+
+(* ------------------------------------------------------------------ sm9_z256_modn_mul / _pow / _inv
+   Barrett reduction with the stored 257-bit constant SM9_Z256_N_BARRETT_MU = floor(2^512 / N):
+   z = a*b; q = ((z >> 192) * mu) >> 320; r = (z - q*N) mod 2^320 (five limbs); one conditional
+   subtraction of N (on the low four limbs) when the fifth limb is non-zero or r[0..3] >= N. *)
+Definition mu_n : Z := 2 ^ 256 + 0x67980e0beb5759a655f73aebdcd1312c9c95d85ec9c073b074df4fd4dfc97c2f.
+Definition modn_mul (a b : Z) : Z :=
+  let z := a * b in
+  let q := ((z / 2 ^ 192) * mu_n) / 2 ^ 320 in
+  let r := (z - q * Nord) mod 2 ^ 320 in
+  if Nord <=? r then (r mod W256 - Nord) mod W256 else r mod W256.
+(* sm9_z256_modn_pow: left-to-right square-and-multiply starting from 1; _inv: a^(N-2) *)
+Definition modn_pow (a e : Z) : Z := gpow (fun x => modn_mul x x) modn_mul 1 a e.
+Definition modn_inv (a : Z) : Z := modn_pow a (Nord - 2).
+(* key extraction scalar of sm9_*_master_key_extract_key: t1 = H1 + k mod N (0 -> error), t2 = k * t1^-1 *)
+Definition extract_t2 (h1 k : Z) : option Z :=
+  let t1 := modn_add h1 k in
+  if t1 =? 0 then None else Some (modn_mul (modn_inv t1) k).
